@@ -32,6 +32,9 @@ def values_part(ck, tier):
     must_pass(r, "MC_Acquire")
     ck.tlc(r, "acquisition_reference")
     tail = 0
+    # ONE acquisition object of each kind is attached to every regressor in turn (update_gp): what it holds is the current model's
+    from inference.gp.acquisition import ExpectedImprovement as _EI, UpperConfidenceBound as _UCB, MaxVariance as _MV
+    shared_acqs = {"ei": _EI(), "ucb": _UCB(kappa=2.0), "ucb3": _UCB(kappa=3.0), "ucb0": _UCB(kappa=0.0), "maxvar": _MV()}
     for c in r.printed:
         pb = c["pb"]
         idn = GE.ident(pb)
@@ -40,8 +43,7 @@ def values_part(ck, tier):
         except Exception as ex:
             ck.violation("GpRegressor raised", {**idn, "error": repr(ex)[:200]}, site="GpRegressor")
             continue
-        acqs = {"ei": ExpectedImprovement(), "ucb": UpperConfidenceBound(kappa=2.0), "ucb3": UpperConfidenceBound(kappa=3.0), "ucb0": UpperConfidenceBound(kappa=0.0),
-                "maxvar": MaxVariance()}
+        acqs = shared_acqs
         for a in acqs.values():
             a.update_gp(gp)
         d = len(pb["X"][0])
@@ -54,7 +56,17 @@ def values_part(ck, tier):
             ident = {**idn, "query": p["q"], "z_score": z}
             ck.case((str(idn), str(p["q"])))
             if not SL.value(p["ei"]) > 1e-300:
-                ck.count("acquisition_reference", "query_points_skipped_EI_below_double_range", 1)
+                # EI itself is below the range of doubles here; the optimiser's objective -ln EI is not: its two forms are finite and agree
+                ck.count("acquisition_reference", "query_points_with_EI_below_double_range", 1)
+                try:
+                    with np.errstate(all="ignore"):
+                        of_ = float(acqs["ei"].opt_func(x))
+                        ov_ = float(np.squeeze(acqs["ei"].opt_func_gradient(x)[0]))
+                    if not (math.isfinite(of_) and math.isfinite(ov_) and abs(of_ - ov_) <= 1e-7 * max(1.0, abs(ov_))):
+                        ck.violation("optimiser objective: value form and value-and-gradient form return the same objective (far tail, EI below the double range)",
+                                     {**idn, "query": p["q"], "z_score": z, "opt_func": of_, "opt_func_gradient_value": ov_}, site="ExpectedImprovement.opt_func")
+                except Exception as ex:
+                    ck.violation("acquisition call raised", {**idn, "query": p["q"], "error": repr(ex)[:200]}, site="ExpectedImprovement")
                 continue
             want = {"ei": SL.value(p["ei"]), "ucb": SL.value(p["ucb"]), "ucb3": SL.value(p["ucb3"]), "ucb0": SL.value(p["ucb0"]), "maxvar": G.fr(p["maxvar"])}
             wgrad = {"ei": np.array([SL.value(g) for g in p["gei"]]) / want["ei"],        # grad ln EI = grad EI / EI
